@@ -142,6 +142,7 @@ func checkC03(p *core.Program, r *core.Report) {
 	r.Rule("R4", "in each Apply, the value stored by a setter, the value announced by the event and the value compared with the getter in the guard are the same value")
 	r.Rule("R5", "engine-side pairs: Contact.ReevaluateQueryBasedGroups reports exactly the groups it adds/removes; both of its callers forward (added, removed) to contact_groups_changed; the resume contact swap is announced by contact_refreshed; actions reach modifiers.Apply only through baseAction.applyModifier")
 	r.Rule("R6", "reset and rebuild: where an Apply calls a mutator that replaces a whole list by an empty one (a parameterless Contact method storing a fresh list into a field, e.g. ClearURNs) and also mutators that add to the same list, `mutated` no longer implies `changed`; every path that reports a change (returns true) is then also controlled by the false edge of an Equal comparison of that list")
+	r.Rule("R7", "one notion of `same URN`: the Contact methods that take a URN (HasURN, RemoveURN, and AddURN through HasURN) compare it with the contact's URNs the same way everywhere (Identity() on both sides), so that `has` and `remove` cannot disagree; ContactURN.Equal, which decides whether a URN list changed, compares the complete raw URN that contact_urns_changed carries, never a projection of it")
 	r.Assumption("the replay semantics of each event type (that applying contact_name_changed sets the name, etc.) is the host's contract and is not checked")
 
 	modIface := p.Interface("flows", "Modifier")
@@ -165,6 +166,7 @@ func checkC03(p *core.Program, r *core.Report) {
 	}
 
 	c03R6(p, r, applies)
+	c03R7(p, r)
 
 	// ---------------- R1
 	nSites := 0
@@ -1228,4 +1230,137 @@ func isNotEqualOf(v ssa.Value, field *types.Var) bool {
 	}
 	o := core.CalleeObj(&c.Call)
 	return o != nil && o.Name() == "Equal" && types.Identical(c.Call.Args[0].Type(), field.Type())
+}
+
+// ---------------------------------------------------------------------------------------------- R7
+
+func c03R7(p *core.Program, r *core.Report) {
+	contact := p.NamedType("flows", "Contact")
+	if contact == nil {
+		r.Errorf("flows.Contact not found")
+		return
+	}
+	isURN := func(t types.Type) bool {
+		n, ok := t.(*types.Named)
+		return ok && n.Obj().Name() == "URN" && n.Obj().Pkg() != nil && strings.HasSuffix(n.Obj().Pkg().Path(), "gocommon/urns")
+	}
+	class := func(v ssa.Value) string {
+		if c, ok := v.(*ssa.Call); ok {
+			if o := core.CalleeObj(&c.Call); o != nil && strings.HasSuffix(core.ObjName(o), "urns.URN.Identity") {
+				return "identity"
+			}
+		}
+		return "raw"
+	}
+	type cmp struct {
+		fn   *ssa.Function
+		bo   *ssa.BinOp
+		kind string
+	}
+	var cmps []cmp
+	ms := p.SSA.MethodSets.MethodSet(types.NewPointer(contact))
+	for i := 0; i < ms.Len(); i++ {
+		fn := p.SSA.MethodValue(ms.At(i))
+		if fn == nil || fn.Blocks == nil {
+			continue
+		}
+		takesURN := false
+		for _, prm := range fn.Params[1:] {
+			if isURN(prm.Type()) {
+				takesURN = true
+			}
+		}
+		if !takesURN {
+			continue
+		}
+		core.EachInstr(fn, false, func(_ *ssa.Function, in ssa.Instruction) {
+			bo, ok := in.(*ssa.BinOp)
+			if !ok || (bo.Op != token.EQL && bo.Op != token.NEQ) || !isURN(bo.X.Type()) {
+				return
+			}
+			k := class(bo.X) + "/" + class(bo.Y)
+			cmps = append(cmps, cmp{fn, bo, k})
+		})
+	}
+	count := map[string]int{}
+	for _, c := range cmps {
+		count[c.kind]++
+	}
+	major, best := "", 0
+	for k, n := range count {
+		if n > best || (n == best && k < major) {
+			major, best = k, n
+		}
+	}
+	if count["identity/identity"] > 0 {
+		major = "identity/identity"
+	}
+	for _, c := range cmps {
+		r.Check(c.kind == major, "R7", core.FuncName(c.fn)+"/urn-comparison", p.Pos(c.bo.Pos()), c.kind,
+			fmt.Sprintf("%s compares URNs as %s while the sibling methods compare %s: HasURN can say yes for a URN that RemoveURN then does not find (display or query differ), so a removal reports `modified` and emits an event without changing the contact", core.FuncName(c.fn), c.kind, major))
+	}
+	r.Require("contact_urn_comparisons", len(cmps), 2)
+
+	// ContactURN.Equal
+	eq := p.Method("flows", "ContactURN", "Equal")
+	urnField := p.FieldOf("flows", "ContactURN", "urn")
+	if eq == nil || urnField == nil {
+		r.Errorf("ContactURN.Equal / ContactURN.urn not found")
+		return
+	}
+	whole, partial := 0, ""
+	core.EachInstr(eq, false, func(_ *ssa.Function, in ssa.Instruction) {
+		bo, ok := in.(*ssa.BinOp)
+		if !ok || (bo.Op != token.EQL && bo.Op != token.NEQ) {
+			return
+		}
+		sides := 0
+		projected := ""
+		for _, op := range []ssa.Value{bo.X, bo.Y} {
+			fromURN := false
+			for v := range core.BackSlice(op, func(c *ssa.Call) bool {
+				f := c.Call.StaticCallee()
+				return f != nil && core.RelPkg(core.FuncPkgPath(f)) == "flows"
+			}) {
+				switch x := v.(type) {
+				case *ssa.UnOp:
+					if core.FieldAddrVar(x.X) == urnField {
+						fromURN = true
+					}
+				case *ssa.Call:
+					if f := x.Call.StaticCallee(); f != nil && f.Name() == "String" && core.RelPkg(core.FuncPkgPath(f)) == "flows" {
+						// ContactURN.String returns the whole urn (checked: its result derives from the field only)
+						fromURN = true
+						continue
+					}
+					if o := core.CalleeObj(&x.Call); o != nil && strings.Contains(core.ObjName(o), "urns.URN.") && o.Name() != "String" {
+						projected = o.Name() + "()"
+					}
+				}
+			}
+			if fromURN {
+				sides++
+			}
+		}
+		if sides == 2 {
+			if projected == "" {
+				whole++
+			} else {
+				partial = projected
+			}
+		}
+	})
+	if str := p.Method("flows", "ContactURN", "String"); str != nil {
+		okStr := false
+		for _, b := range str.Blocks {
+			if ret, ok := b.Instrs[len(b.Instrs)-1].(*ssa.Return); ok && len(ret.Results) == 1 {
+				if ld, ok := core.StripConv(ret.Results[0]).(*ssa.UnOp); ok && core.FieldAddrVar(ld.X) == urnField {
+					okStr = true
+				}
+			}
+		}
+		r.Check(okStr, "R7", "ContactURN.String/whole-urn", p.Pos(str.Pos()), "returns the urn field converted to string", "ContactURN.String no longer returns the complete raw URN, which Equal relies on")
+	}
+	r.Check(whole > 0 && partial == "", "R7", "ContactURN.Equal/whole-urn", p.Pos(eq.Pos()), "compares the complete raw URNs of both sides",
+		"ContactURN.Equal compares "+map[bool]string{true: "only " + partial + " of the URNs", false: "no part of the raw URNs"}[partial != ""]+": a change of the display or query part is not seen, UpdatePreferredChannel and the urns modifier then report `not modified` and emit no event although the raw URNs announced by contact_urns_changed differ")
 }
